@@ -27,10 +27,52 @@ structure MS where
   returned : Bool
   ev : Ev
 
-/-- backtracking matcher: find oracle events under which the skeleton's fault-free path makes the calls `tr`
-    (and then, if `nat = some (site, kind)`, raises at `site`). -/
-partial def matchS (nat : Option (Nat × Nat)) (pre : Bool) : Stmt → MS → (MS → Option Ev) → Option Ev
-  | s, m, k =>
+/-- symbols a statement can start with on its fault-free path (a raise of its own is the symbol `(site, 99)`) -/
+partial def first : Stmt → List (Nat × Nat)
+  | .call e site => [(site, e.code)]
+  | .raise_ _ site => [(site, 99)]
+  | .mayRaise _ site => [(site, 99)]
+  | .mutate _ site => [(site, 8)]
+  | .seq a b => if nullable a then first a ++ first b else first a
+  | .loop _ b => first b
+  | .choice _ a b => first a ++ first b
+  | .tryFinally _ body fin => if nullable body then first body ++ first fin else first body
+  | .tryExcept _ body _ _ _ => first body
+  | .scope b => first b
+  | _ => []
+where
+  nullable : Stmt → Bool
+    | .call _ _ => false
+    | .raise_ _ _ => false
+    | .reraise _ => false
+    | .mutate _ _ => false
+    | .seq a b => nullable a && nullable b
+    | .choice _ a b => nullable a || nullable b
+    | .tryFinally _ body fin => nullable body && nullable fin
+    | .tryExcept _ body _ _ _ => nullable body
+    | .scope b => nullable b
+    | _ => true
+
+def viable (s : Stmt) (next : Option (Nat × Nat)) : Bool :=
+  match next with
+  | none => first.nullable s
+  | some x => first.nullable s || (first s).contains x
+
+abbrev M := StateM Nat
+
+def orElseM (x : M (Option Ev)) (y : Unit → M (Option Ev)) : M (Option Ev) := do
+  match ← x with
+  | some r => return some r
+  | none => y ()
+
+/-- backtracking matcher with one symbol of look-ahead and a global step budget: find oracle events under
+    which the skeleton's fault-free path makes the calls `tr` (the last symbol `(site, 99)` = the library raises
+    by itself at `site`; `pre` = stop as soon as the trace is used up). -/
+partial def matchS (natKind : Nat) (pre : Bool) : Stmt → MS → (MS → M (Option Ev)) → M (Option Ev)
+  | s, m, k => do
+    let fuel ← get
+    if fuel == 0 then return none
+    set (fuel - 1)
     if m.done || m.returned then k m   -- skipping to the end of the enclosing scope / of the run
     else
     match s with
@@ -38,47 +80,67 @@ partial def matchS (nat : Option (Nat × Nat)) (pre : Bool) : Stmt → MS → (M
     | .call e site =>
       match m.tr with
       | (t, c) :: r =>
-        if t == site && c == e.code then k { m with tr := r, done := pre && r.isEmpty } else none
-      | [] => none
+        if t == site && c == e.code then k { m with tr := r, done := pre && r.isEmpty } else return none
+      | [] => return none
     | .raise_ _ site =>
-      match m.tr, nat with
-      | [], some (s', _) => if s' == site then k { m with done := true } else none
-      | _, _ => none
-    | .reraise _ => none
+      match m.tr with
+      | [(t, 99)] => if t == site then k { m with tr := [], done := true } else return none
+      | _ => return none
+    | .reraise _ => return none
     | .mayRaise oid site =>
-      let here : Option Ev :=
-        match m.tr, nat with
-        | [], some (s', kd) => if s' == site then k { m with done := true, ev := (oid, kd + 1) :: m.ev } else none
-        | _, _ => none
-      here <|> k { m with ev := (oid, 0) :: m.ev }
+      match m.tr with
+      | [(t, 99)] =>
+        if t == site then
+          orElseM (k { m with tr := [], done := true, ev := (oid, natKind + 1) :: m.ev })
+            (fun _ => k { m with ev := (oid, 0) :: m.ev })
+        else k { m with ev := (oid, 0) :: m.ev }
+      | _ => k { m with ev := (oid, 0) :: m.ev }
     | .mutate _ site =>
       match m.tr with
-      | (t, c) :: r => if t == site && c == 8 then k { m with tr := r } else none
-      | [] => none
+      | (t, c) :: r => if t == site && c == 8 then k { m with tr := r } else return none
+      | [] => return none
     | .restore _ => k m
-    | .seq a b => matchS nat pre a m (fun m' => matchS nat pre b m' k)
+    | .seq a b => matchS natKind pre a m (fun m' => matchS natKind pre b m' k)
     | .loop oid b =>
-      let rec go (n : Nat) (m : MS) : Option Ev :=
-        (matchS nat pre b m (fun m' =>
-          if m'.done || m'.returned then k { m' with ev := (oid, n + 1) :: m'.ev }
-          else if m'.tr.length < m.tr.length then go (n + 1) m' else none))
-        <|> k { m with ev := (oid, n) :: m.ev }
+      let rec go (n : Nat) (m : MS) : M (Option Ev) :=
+        let iterate : M (Option Ev) :=
+          match m.tr.head? with
+          | some x =>
+            if (first b).contains x then
+              matchS natKind pre b m (fun m' =>
+                if m'.done || m'.returned then k { m' with ev := (oid, n + 1) :: m'.ev }
+                else if m'.tr.length < m.tr.length then go (n + 1) m' else return none)
+            else return none
+          | none => return none
+        orElseM iterate (fun _ => k { m with ev := (oid, n) :: m.ev })
       go 0 m
     | .choice oid a b =>
-      matchS nat pre a { m with ev := (oid, 1) :: m.ev } k <|> matchS nat pre b { m with ev := (oid, 0) :: m.ev } k
+      let nx := m.tr.head?
+      let ta : Unit → M (Option Ev) := fun _ =>
+        if viable a nx then matchS natKind pre a { m with ev := (oid, 1) :: m.ev } k else return none
+      let tb : Unit → M (Option Ev) := fun _ =>
+        if viable b nx then matchS natKind pre b { m with ev := (oid, 0) :: m.ev } k else return none
+      -- prefer the branch that can consume the next symbol
+      if (match nx with | some x => !(first a).contains x && (first b).contains x | none => false) then
+        orElseM (tb ()) ta
+      else orElseM (ta ()) tb
     | .tryFinally _ body fin =>
-      matchS nat pre body m (fun m' =>
+      matchS natKind pre body m (fun m' =>
         if m'.done then k m' else
           let r := m'.returned
-          matchS nat pre fin { m' with returned := false } (fun m'' => k { m'' with returned := r || m''.returned }))
-    | .tryExcept _ body _ _ _ => matchS nat pre body m k
-    | .scope b => matchS nat pre b m (fun m' => k { m' with returned := false })
+          matchS natKind pre fin { m' with returned := false }
+            (fun m'' => k { m'' with returned := r || m''.returned }))
+    | .tryExcept _ body _ _ _ => matchS natKind pre body m k
+    | .scope b => matchS natKind pre b m (fun m' => k { m' with returned := false })
     | .ret => k { m with returned := true }
     | .unsupported _ => k m
 
 def findOracle (s : Stmt) (tr : List (Nat × Nat)) (nat : Option (Nat × Nat)) (pre : Bool) : Option Ev :=
-  matchS nat pre s { tr := tr, done := false, returned := false, ev := [] }
-    (fun m => if m.tr.isEmpty && ((nat.isNone && !pre) || m.done) then some m.ev.reverse else none)
+  let tr' := match nat with | some (site, _) => tr ++ [(site, 99)] | none => tr
+  let natKind := match nat with | some (_, kd) => kd | none => 0
+  let fin : MS → M (Option Ev) := fun m =>
+    return (if m.tr.isEmpty && ((nat.isNone && !pre) || m.done) then some m.ev.reverse else none)
+  ((matchS natKind pre s { tr := tr', done := false, returned := false, ev := [] } fin).run 300000).1
 
 def oracleOfEv (ev : Ev) : Nat → List Nat := fun oid => (ev.filter (fun p => p.1 == oid)).map (·.2)
 
